@@ -67,7 +67,7 @@ func (c *MustacheParser) VariableNames() []string {
 //		mustache: A new mustache string.
 func (c *MustacheParser) ParseString(mustache string) error {
 	c.Clear()
-	c.template = strings.Trim(mustache, " \t\r\n")
+	c.template = mustache
 	c.originalTokens = c.tokenizeMustache(c.template)
 	return c.performParsing()
 }
@@ -140,7 +140,6 @@ func (c *MustacheParser) addTokenToResult(typ int, value string, line int, colum
 }
 
 func (c *MustacheParser) tokenizeMustache(mustache string) []*tokenizers.Token {
-	mustache = strings.Trim(mustache, " \t\r\n")
 	if len(mustache) == 0 {
 		return []*tokenizers.Token{}
 	}
